@@ -47,6 +47,10 @@ FLAVOURS = {
     "plain": dict(cc="gcc", san=[], opt=["-O2", "-g"]),
 }
 
+if os.environ.get("VERIF_COV"):
+    # coverage measurement of the checks themselves (tools/coverage.sh); never used by a registered command
+    FLAVOURS["cov"] = dict(cc="gcc", san=["--coverage"], opt=["-O0", "-g"])
+
 # harness TUs that must NOT be tsan-instrumented (scheduler/VFS bookkeeping is shared by design)
 TSAN_UNINSTRUMENTED = {"sched.c", "vfs.c", "util.c", "drv.c"}
 
@@ -125,6 +129,9 @@ def _compile_many(jobs):
         return
     def one(j):
         cmd, out = j
+        if "--coverage" in cmd:
+            _run(cmd + ["-o", out])   # .gcno/.gcda names derive from the output name
+            return
         tmp = out + ".tmp%d" % os.getpid()
         _run(cmd + ["-o", tmp])
         os.replace(tmp, out)
